@@ -333,6 +333,71 @@ pub fn large_inputs(f: &mut dyn FnMut(&[u8])) {
     f(&v);
 }
 
+/// (d2) Every (length octet, prefix-length octet) pair of a PRIV item, in an otherwise well-formed
+/// one-chunk SDES packet that contains all the bytes the length octet promises (65 536 packets).
+pub fn sdes_priv_pairs(shard: usize, nshards: usize, f: &mut dyn FnMut(&[u8])) -> u64 {
+    let mut n = 0;
+    let mut v: Vec<u8> = Vec::with_capacity(280);
+    for l in 0..=255usize {
+        for p in 0..=255usize {
+            if (l * 256 + p) % nshards != shard {
+                continue;
+            }
+            v.clear();
+            v.extend_from_slice(&[0x81, 202, 0, 0, 0x10, 0x20, 0x30, 0x40, 8, l as u8]);
+            for k in 0..l {
+                v.push(if k == 0 { p as u8 } else { b'a' + (k % 23) as u8 });
+            }
+            v.push(0);
+            while v.len() % 4 != 0 {
+                v.push(0);
+            }
+            fix_len(&mut v);
+            f(&v);
+            n += 1;
+        }
+    }
+    n
+}
+
+/// (d3) Inputs defined by a relation rather than by one field: datagrams with more than 65 535 tiles,
+/// inputs longer than the largest packet (65 536 words) under every kind of length field, including
+/// the one that equals the real word count modulo 2^16.
+pub fn relational_inputs(shard: usize, nshards: usize, f: &mut dyn FnMut(&[u8])) -> u64 {
+    let mut n = 0u64;
+    let mut k = 0usize;
+    let mut mine = || {
+        k += 1;
+        k % nshards == shard
+    };
+    for tiles in [65_535usize, 65_536, 65_537, 70_000] {
+        if mine() {
+            let mut v = Vec::with_capacity(tiles * 4);
+            for i in 0..tiles {
+                v.extend_from_slice(&[0x80, [203u8, 202, 199][i % 3], 0, 0]);
+            }
+            f(&v);
+            n += 1;
+        }
+    }
+    for len in [262_148usize, 262_152, 263_316, 525_460] {
+        for &pt in &PTS_OF_INTEREST {
+            for field in [0u16, 1, 6, 0x0123, 0xfffe, 0xffff, ((len / 4 - 1) & 0xffff) as u16] {
+                if !mine() {
+                    continue;
+                }
+                let mut v = vec![0u8; len];
+                v[0] = 0x80 | 1;
+                v[1] = pt;
+                v[2..4].copy_from_slice(&field.to_be_bytes());
+                f(&v);
+                n += 1;
+            }
+        }
+    }
+    n
+}
+
 /// (e) Exhaustive SDES bodies of `words` 32-bit words over the alphabet {0,1,2,8}
 /// (optionally behind an SSRC prefix word), with SC in `scs`, without padding and with a
 /// 4-byte and an 8-byte padding trailer.
